@@ -57,6 +57,9 @@ func (s *c20Server) serve(ln net.Listener) {
 		mode, content := s.mode, s.content
 		s.reqs++
 		s.mu.Unlock()
+		if ref := r.URL.Query().Get("ref"); ref != "" {
+			content = ref // /inc.yml?ref=v1 and ?ref=v2 are two different remote files
+		}
 		switch mode {
 		case "http500":
 			http.Error(w, "boom", 500)
@@ -426,4 +429,79 @@ func c20Unit(tier string, optional bool) *Unit {
 	}}
 }
 
-func c20Units(tier string) []*Unit { return []*Unit{c20Unit(tier, false), c20Unit(tier, true)} }
+// two remote includes whose URLs differ only in the query string are two remote files: each
+// keeps its own approved cached copy, whatever is downloaded in between
+func c20TwoURLsUnit() *Unit {
+	name := "two-urls-differing-in-query"
+	return &Unit{Name: name, Weight: 2, Custom: func(u *Unit, dir string, deadline time.Time) *vlab.UnitResult {
+		res := &vlab.UnitResult{SigCounts: map[string]int{}, Extra: map[string]any{}}
+		srv := &c20Server{content: "v1", mode: "up"}
+		if err := srv.start(); err != nil {
+			res.HarnessErr = err.Error()
+			return res
+		}
+		defer srv.set("v1", "refusing")
+		n := 0
+		var samples []any
+		base := "http://" + srv.addr + "/inc.yml"
+		for _, order := range [][2]string{{"v1", "v2"}, {"v2", "v1"}} {
+			rootTF := "version: '3'\nincludes:\n  a: " + base + "?ref=" + order[0] + "\n  b: " + base + "?ref=" + order[1] + "\ntasks:\n  local:\n    cmds: ['true']\n"
+			for _, later := range [][]string{{"--offline"}, {"--expiry", "1h"}, {"server-refusing"}, {"server-http500"}} {
+				os.RemoveAll(dir)
+				os.MkdirAll(dir, 0o755)
+				os.WriteFile(filepath.Join(dir, "Taskfile.yml"), []byte(rootTF), 0o644)
+				srv.set("v1", "up")
+				env := []string{"TASK_X_REMOTE_TASKFILES=1"}
+				first := []string{"--timeout", "5s", "--insecure", "--yes"}
+				if later[0] == "--expiry" {
+					first = append(first, later...)
+				}
+				so1a, _, rc1a := RunCLI(dir, env, "", append(append([]string{}, first...), "a:show")...)
+				so1b, _, rc1b := RunCLI(dir, env, "", append(append([]string{}, first...), "b:show")...)
+				n += 2
+				args := []string{"--timeout", "5s", "--insecure"}
+				switch later[0] {
+				case "server-refusing":
+					srv.set("v1", "refusing")
+				case "server-http500":
+					srv.set("v1", "http500")
+				default:
+					args = append(args, later...)
+				}
+				hist := []string{"run-yes a:show", "run-yes b:show", strings.Join(later, " ")}
+				for i, ns := range []string{"a", "b"} {
+					so, se, rc := RunCLI(dir, env, "", append(append([]string{}, args...), ns+":show")...)
+					n++
+					want := "REMOTE-" + order[i]
+					if len(samples) < 3 {
+						samples = append(samples, map[string]any{"history": hist, "request": ns + ":show", "status": rc, "stdout": so})
+					}
+					if rc1a != 0 || rc1b != 0 || !strings.Contains(so1a, "REMOTE-"+order[0]) || !strings.Contains(so1b, "REMOTE-"+order[1]) {
+						continue // the downloading runs are judged by the main unit
+					}
+					if rc != 0 || !strings.Contains(so, want) {
+						clause := "cache_not_used"
+						if rc == 0 {
+							clause = "unapproved_content_ran"
+						}
+						v := vlab.V("C20", clause, "two_urls:"+later[0], fmt.Sprintf("%s:show after both URLs were downloaded and approved, then %v: status %d, stdout %q, stderr %q; expected the cached copy of %s?ref=%s (%s)", ns, later, rc, so, firstN(se, 120), base, order[i], want))
+						v.Scenario = name
+						v.Input = map[string]any{"history": hist, "root_taskfile": rootTF}
+						v.Trace = hist
+						res.SigCounts[v.Sig]++
+						if res.SigCounts[v.Sig] == 1 {
+							res.Violations = append(res.Violations, v)
+						}
+					}
+				}
+			}
+		}
+		res.Extra["samples"] = samples
+		res.Stats = vlab.Stats{Scenario: name, Execs: n, States: n, Transitions: n, Outcomes: 2, Exhaustive: true}
+		return res
+	}}
+}
+
+func c20Units(tier string) []*Unit {
+	return []*Unit{c20Unit(tier, false), c20Unit(tier, true), c20TwoURLsUnit()}
+}
